@@ -37,6 +37,10 @@ let cmd_w (t : string list) =
   | ["writerep"; b; cnt] ->
     let f = byte_tab.(int_of_string ("0x" ^ b)) in
     s.calls <- ("w", List.init (int_of_string cnt) (fun _ -> f), N0, None) :: s.calls; out (last_outcome s)
+  | ["writepat"; kind; seed; cnt] ->      (* cnt bytes of little-endian 32-bit words: word i = i + seed (cnt) or i * 0x9E3779B1 + seed (mix) *)
+    let seed = int_of_string seed and n = int_of_string cnt in
+    let word i = (if kind = "cnt" then i + seed else i * 0x9E3779B1 + seed) land 0xffffffff in
+    s.calls <- ("w", List.init n (fun j -> byte_tab.((word (j / 4) lsr (8 * (j mod 4))) land 0xff)), N0, None) :: s.calls; out (last_outcome s)
   | "rot" :: id :: rest -> s.calls <- ("r", [], n_of_dec id, (match rest with b :: _ -> Some (n_of_dec b) | [] -> None)) :: s.calls; out "ok"
   | ["end"] -> s.ended <- true; out "ok"
   | _ -> out "? bad writer command"
@@ -67,6 +71,9 @@ let mk_gqr (name : n list) (k : n) : val0 option list =
     | 2 -> Some (VN (snd (N.div_eucl k (n_of_dec "65536"))))
     | 23 -> Some (VS name)
     | _ -> None)
+let mk_gaec (ip : n list) (ty : n) (cnt : n) : val0 option list = [Some (VN ty); None; None; Some (VS ip); Some (VN cnt)]
+let mk_gmm (payload : n list) (k : n) : val0 option list =
+  [Some (VL [VN (N.add (n_of_dec "1600000000") k); VN N0]); Some (VS (bytes_of_hex "0a000002")); Some (VN (snd (N.div_eucl k (n_of_dec "65536")))); None; None; None; Some (VS payload)]
 let cmd_xw (t : string list) =
   match t with
   | "new" :: kind :: comp :: id :: rest ->
@@ -86,6 +93,8 @@ let cmd_xw (t : string list) =
                  (match oc with Done -> out ("r " ^ dec_of_n r) | Threw -> out "throw Out"); oc in
     (match t with
      | ["qr"; h; k] -> ignore (fstp (XQr (mk_gqr (bytes_of_hex h) (n_of_dec k), None)))
+     | ["aec"; h; ty; c] -> ignore (fstp (XAec (mk_gaec (bytes_of_hex h) (n_of_dec ty) (n_of_dec c), None)))
+     | ["mm"; h; k] -> ignore (fstp (XMm (mk_gmm (bytes_of_hex h) (n_of_dec k), None)))
      | ["wb"] -> ignore (fstp XWb)
      | "rot" :: id :: e :: _ -> (match fstp (XRot (e <> "0")) with Done -> s.fids <- s.fids @ [n_of_dec id] | Threw -> ())
      | ["counts"] -> out (Printf.sprintf "c %s %s" (dec_of_n (item_count s.xcur.x_blk)) (dec_of_n s.xcur.x_written))
@@ -101,6 +110,8 @@ let cmd_xw (t : string list) =
   let step o = let (x', r) = xstep s.xcur o in s.xcur <- x'; s.xops <- s.xops @ [o]; r in
   match t with
   | ["qr"; h; k] -> let r = step (XQr (mk_gqr (bytes_of_hex h) (n_of_dec k), None)) in out ("r " ^ dec_of_n r)
+  | ["aec"; h; ty; c] -> let r = step (XAec (mk_gaec (bytes_of_hex h) (n_of_dec ty) (n_of_dec c), None)) in out ("r " ^ dec_of_n r)
+  | ["mm"; h; k] -> let r = step (XMm (mk_gmm (bytes_of_hex h) (n_of_dec k), None)) in out ("r " ^ dec_of_n r)
   | ["wb"] -> let r = step XWb in out ("r " ^ dec_of_n r)
   | "rot" :: id :: e :: _ -> s.xids <- s.xids @ [n_of_dec id]; let r = step (XRot (e <> "0")) in out ("r " ^ dec_of_n r)
   | ["counts"] -> out (Printf.sprintf "c %s %s" (dec_of_n (item_count s.xcur.x_blk)) (dec_of_n s.xcur.x_written))
